@@ -4,8 +4,10 @@
 tier=${1:-quick}; shift || true
 cd /verif
 seeds=${*:-$(ls -d seeded/C*/ | tr -d '\n' | sed 's#/seeded# seeded#g')}
+# SKIP_DONE=1: keep the result of a seed that already has a checks-<tier>.txt
 for d in $seeds; do
   d=${d%/}
+  if [ -n "${SKIP_DONE:-}" ] && [ -s $d/checks-$tier.txt ]; then continue; fi
   echo "== $d"
   tools/try_seed.sh /verif/$d/patch.diff $tier | tee $d/checks-$tier.txt
 done
